@@ -31,6 +31,7 @@ theorem step_frame (F : List Char → Option Rat) (s : State) (op : Op) : Frame 
   cases op with
   | computeMetric name vals f mode => exact computeMetric_frame _ _ _ _ _
   | addMetric name vals => exact addMetric_frame _ _ _
+  | addFromInt name src => exact addFromInt_preserves (Frame s) _ _ _ (Frame.refl s) (fun _ => addMetric_frame _ _ _)
   | computeTimings =>
     apply seqOps_frame
     intro o ho s'
@@ -76,6 +77,7 @@ theorem step_good (F : List Char → Option Rat) (s : State) (op : Op) (h : HasG
   cases op with
   | computeMetric name vals f mode => exact computeMetric_preserves HasGood _ _ _ _ _ h (fun _ => addMetric_good _ _ _ h)
   | addMetric name vals => exact addMetric_good _ _ _ h
+  | addFromInt name src => exact addFromInt_preserves HasGood _ _ _ h (fun _ => addMetric_good _ _ _ h)
   | computeTimings =>
     apply seqOps_preserves HasGood _ _ s h
     intro o ho s' hs'
@@ -171,6 +173,13 @@ theorem step_setCache (F : List Char → Option Rat) (b : Bool) (s : State) (op 
   cases op with
   | computeMetric name vals f mode => exact computeMetric_setCache b s h name vals f mode hv
   | addMetric name vals => exact addMetric_setCache _ _ _ _
+  | addFromInt name src =>
+    simp only [step, addFromInt]
+    have hm : (setCache b s).metrics = s.metrics := rfl
+    rw [hm]
+    split
+    · rfl
+    · exact addMetric_setCache _ _ _ _
   | computeTimings =>
     simp only [step, computeTimings]
     apply seqOps_setCache b _ _ s h
